@@ -191,9 +191,12 @@ fn build_message(rng: &mut Rng, pool: &[RName], class: u16, rtype: u16) -> (Vec<
 /// (3) write with the Writer, read back with the Reader.
 fn check_write_read(rep: &mut Report, rng: &mut Rng, pool: &[RName]) {
     let mode = *rng.pick(&[CompressionMode::Standard, CompressionMode::CasePreserving, CompressionMode::Disabled]);
-    let mut buf = vec![0u8; 4096];
+    // one round trip in eight is a large message: a padding record puts the records under test
+    // around offset 16384, beyond which names can no longer be compression targets
+    let around_16k = rng.chance(1, 8);
+    let mut buf = vec![0u8; if around_16k { 40_000 } else { 4096 }];
     let mut records: Vec<(RName, u16, u16, Vec<u8>)> = Vec::new();
-    let n = rng.range(1, 6);
+    let n = if around_16k { rng.range(3, 8) } else { rng.range(1, 6) };
     for _ in 0..n {
         let (class, rtype) = *rng.pick(rr::GEN_TYPES);
         if rtype == T_OPT || rtype == T_TSIG {
@@ -207,7 +210,13 @@ fn check_write_read(rep: &mut Report, rng: &mut Rng, pool: &[RName]) {
     // a third of the messages get a tight size limit: some records then fail with Truncation in the
     // middle of their RDATA (whether that was necessary is C12's subject) and the records written
     // after a failed one must still read back as the RDATA given
-    let limit = if rng.chance(1, 3) { rng.range(40, 400) } else { 4096 };
+    let limit = if around_16k { 40_000 } else if rng.chance(1, 3) { rng.range(40, 400) } else { 4096 };
+    if around_16k {
+        // header 12 + question + root owner 1 + fixed 10 + RDATA = offset of the next record
+        let target = 16384 - rng.below(48);
+        let used = 12 + qname_r.wire_len() + 4 + 11;
+        records.insert(0, (RName::root(), C_IN, 99u16, vec![0u8; target - used]));
+    }
     let result = panicmon::catch(|| {
         let mut w = Writer::new(&mut buf, limit).unwrap();
         w.set_compression_mode(mode);
@@ -250,7 +259,7 @@ fn check_write_read(rep: &mut Report, rng: &mut Rng, pool: &[RName]) {
     let expected: Vec<&(RName, u16, u16, Vec<u8>)> = records.iter().zip(written.iter()).filter(|(_, w)| **w).map(|(r, _)| r).collect();
     for (rec, ok) in records.iter().zip(written.iter()) {
         rep.eval();
-        if !ok && limit == 4096 {
+        if !ok && limit >= 4096 {
             rep.violation(
                 format!("c18:writer-rejects-valid:type{}", rec.2),
                 format!("writer refused valid RDATA {} of class {} type {}", hex(&rec.3), rec.1, rec.2),
